@@ -31,7 +31,7 @@ def rule_wake_all(rep, rid, prog, fname, wake_callees=("_dispatch_futex_wake",))
                     sample={"fn": fname, "wake_count": n})
 
 
-def rule_recheck_after_wait(rep, rid, prog, fname, field, waits, need_acquire=True, reload_ops=("load", "cmpxchg", "atomicrmw")):
+def rule_recheck_after_wait(rep, rid, prog, fname, field, waits, need_acquire=True, reload_ops=("load", "cmpxchg", "atomicrmw"), reload_calls=()):
     """every path from the kernel wait to a return passes through a fresh atomic read of `field`"""
     fn = prog.fn(fname)
     rep.saw(fn)
@@ -40,6 +40,8 @@ def rule_recheck_after_wait(rep, rid, prog, fname, field, waits, need_acquire=Tr
         rep.unknown(rid, "no blocking call (%s) in %s" % (waits, fname))
         return
     def reread(i):
+        if i.op == "call" and i.callee in reload_calls:
+            return True
         if i.op not in reload_ops or field not in prog.fields(i):
             return False
         if i.op == "load":
